@@ -71,6 +71,10 @@ class A(Adapter):
             cfg("rand10e25o25", gen="random", items=10, ems=25, obs=25, norm=True, rew="sparse"),
             cfg("csv", c02=True, gen="csv", items=10, ems=20, obs=12, norm=False, rew="dense"),
             cfg("rand8e6o6", gen="random", items=8, ems=6, obs=6, norm=True, rew="dense"),
+            # the CSV instance in a user-chosen small container (not the 20-ft default): container size, initial empty space
+            # and normalisation all come from the constructor argument (cheap properties only: no forked enumeration)
+            cfg("csvsmall", True, gen="csv", items=10, ems=20, obs=20, norm=True, rew="dense", container=[2400, 1600, 900],
+                props=["C01", "C03", "C06", "C08", "C12"]),
         ]
 
     def build(self, c):
@@ -87,7 +91,8 @@ class A(Adapter):
             path = os.path.join(d, "instance.csv")
             with open(path, "w") as f:
                 f.write(CSV_TEXT)
-            g = G.CSVGenerator(csv_path=path, max_num_ems=c["ems"])
+            kw = {"container_dims": tuple(c["container"])} if c.get("container") else {}
+            g = G.CSVGenerator(csv_path=path, max_num_ems=c["ems"], **kw)
             os.remove(path)
         rf = R.DenseReward() if c["rew"] == "dense" else R.SparseReward()
         return BinPack(generator=g, obs_num_ems=c["obs"], reward_fn=rf, normalize_dimensions=c["norm"])
